@@ -67,6 +67,8 @@ pub assume_specification<T: Default>[ std::mem::take ](x: &mut T) -> (r: T) ensu
 pub assume_specification<T>[ <T as From<T>>::from ](t: T) -> (r: T) ensures r == t;
 pub assume_specification<T: Clone>[ <[T]>::to_vec ](s: &[T]) -> (r: Vec<T>)
     ensures r@.len() == s@.len(), forall|i: int| 0 <= i < s@.len() ==> cloned::<T>(s@[i], #[trigger] r@[i]);
+// std: reverses the order of elements in the slice, in place
+pub assume_specification<T>[ <[T]>::reverse ](s: &mut [T]) ensures final(s)@ == old(s)@.reverse();
 // the UTF-8 bytes of a string (an uninterpreted function of the string; Rust caps every allocation at isize::MAX bytes)
 pub uninterp spec fn str_bytes(s: String) -> VSeq<u8>;
 pub assume_specification[ String::as_bytes ](s: &String) -> (r: &[u8]) ensures r@ == str_bytes(*s), r@.len() <= isize::MAX;
